@@ -21,6 +21,35 @@ def _chain(e: ast.AST) -> Tuple[ast.AST, List[ast.Call]]:
     return FO.unchain(e)
 
 
+_STAGE_SYN = {"concat": "concat", "append": "concat", "concatenate": "concat", "hstack": "concat",
+              "sort_values": "sort_values", "sort": "sort_values", "diff": "diff", "ediff1d": "diff"}
+_STAGE_NEUTRAL = {"Series", "array", "asarray", "to_numpy", "astype", "tolist"}
+
+
+def _stages(e: ast.AST):
+    """the pipeline a value flows through, innermost first, across pandas method chains (`x.a().b()`) and numpy function calls
+    (`np.f(x, ..)`, the flowing value being the first argument); representation changes (Series / to_numpy / asarray) are
+    skipped, numpy spellings are named like their pandas counterparts"""
+    calls, names = [], []
+    while isinstance(e, ast.Call):
+        nm = call_name(e)
+        module_call = isinstance(e.func, ast.Attribute) and isinstance(e.func.value, ast.Name) and e.func.value.id in ("np", "numpy", "pd", "pandas")
+        if nm not in _STAGE_NEUTRAL:
+            calls.insert(0, e)
+            names.insert(0, _STAGE_SYN.get(nm, nm))
+        if module_call or isinstance(e.func, ast.Name):
+            if nm in ("concat",) or not e.args:
+                break
+            if nm in ("append", "concatenate", "hstack"):
+                break          # the sources of the concatenation are its arguments: the pipeline starts here
+            e = e.args[0]
+        elif isinstance(e.func, ast.Attribute):
+            e = e.func.value
+        else:
+            break
+    return calls, names
+
+
 def rule_r1(ctx) -> List[R.Inst]:
     M = ctx.M
     rid = "C19.R1"
@@ -29,8 +58,7 @@ def rule_r1(ctx) -> List[R.Inst]:
     rets = [n for n in walk_no_nested(fn.node) if isinstance(n, ast.Return) and n.value is not None]
     if len(rets) != 1:
         return [R.undec(rid, "pipeline", file, fn.node.lineno, "single return pipeline expected")]
-    root, calls = _chain(rets[0].value)
-    names = [c.func.attr for c in calls]
+    calls, names = _stages(rets[0].value)
     insts = []
     want = ["concat", "sort_values", "diff", "dropna", "set_axis", "groupby", "sum", "idxmax"]
     core = [n for n in names if n in want]
@@ -43,10 +71,11 @@ def rule_r1(ctx) -> List[R.Inst]:
                             f"found {core}" + (f" (missing {missing})" if missing else " (order differs)"),
                             construct=" -> ".join(core)))
         return insts
-    by = {c.func.attr: c for c in calls}
+    by = dict(zip(names, calls))
     # the span: tempo offsets plus the last object time of ALL lists
     cc = by["concat"]
-    parts = cc.args[0].elts if cc.args and isinstance(cc.args[0], (ast.List, ast.Tuple)) else []
+    parts = cc.args[0].elts if cc.args and isinstance(cc.args[0], (ast.List, ast.Tuple)) else (
+        list(cc.args[:2]) if call_name(cc) == "append" else [])
     ptxt = [unparse(p) for p in parts]
     stack_all = [n for n in walk_no_nested(fn.node) if isinstance(n, ast.Call) and call_name(n) == "stack"]
     ok_span = len(parts) == 2 and any(".offset" in t and "max()" in t for t in ptxt) and \
